@@ -149,6 +149,12 @@ Lemma trie_refuted_pf :
   refutes [(1, [ECidr 167772160 25])] [] [prof [with_src_set allow_rule 1]] tcp_packet VdAllow RDenied.    (* 10.0.0.0/25 *)
 Proof. repeat split; try reflexivity; discriminate. Qed.
 
+Definition allow_tcp_named5 : rule :=
+  Build_rule Allow None (Some 6) [] [] [] [] [] [5] None [] [] [] None [] [] [] [] None [] [] [] [].
+Lemma named_refuted_pf :
+  refutes [(5, [EPort 167772162 6 80])] [] [prof [allow_tcp_named5]] tcp_packet VdAllow RDenied.    (* 10.0.0.2,tcp:80 *)
+Proof. repeat split; try reflexivity; discriminate. Qed.
+
 (* ------------------------------------------------------------------ the hypotheses are satisfiable *)
 (* a non-trivial state of the PINNED fragment: two tiers (the first passes TCP, the second allows port 80 from a NET
    set and ends in deny), a staged policy, one profile *)
